@@ -4,6 +4,7 @@
 import Driver.Util
 import JanetModel.Table.Model
 import JanetModel.Seq.Model
+import JanetModel.Table.StructLemmas
 open Driver JanetModel.Table JanetModel.Seq JanetModel.Gen.Table
 
 namespace C04
@@ -23,11 +24,13 @@ structure St where
   A : Array Arr := #[]
   B : Array Buf := #[]
   full : Bool := false
+  /-- a struct built in this history failed its certificate (`checkSInv` / `certToStruct`) -/
+  certFail : Bool := false
 
 def St.reset (s : St) : St :=
   { s with theap := Array.replicate NT (Table.init 0), T := Array.range NT,
            sheap := Array.replicate NS (structEnd (fun _ => 0) (fun _ => 0) (structBegin 0)), S := Array.range NS,
-           A := Array.replicate NA (Arr.new 0), B := Array.replicate NB (Buf.new 0) }
+           A := Array.replicate NA (Arr.new 0), B := Array.replicate NB (Buf.new 0), certFail := false }
 
 def St.h (s : St) : Nat → Nat := fun k => s.hashes.getD k 0
 def St.rank (s : St) : Nat → Nat := fun k => s.ranks.getD k 0
@@ -36,6 +39,35 @@ def St.str (s : St) (r : Nat) : Struct := s.sheap.getD (s.S.getD r 0) default
 def St.setTab (s : St) (r : Nat) (t : Table) : St := { s with theap := s.theap.setIfInBounds (s.T.getD r 0) t }
 def St.newTab (s : St) (r : Nat) (t : Table) : St := { s with theap := s.theap.push t, T := s.T.setIfInBounds r s.theap.size }
 def St.newStr (s : St) (r : Nat) (t : Struct) : St := { s with sheap := s.sheap.push t, S := s.S.setIfInBounds r s.sheap.size }
+/-- a new struct in register `r`, with its certificate: the struct invariant (`checkSInv`, sound by
+`checkSInv_sound`) and, when it was converted from a table, equality of the two maps (`certToStruct`) -/
+def St.newStrCert (s : St) (r : Nat) (t : Struct) (src : Option Table) : St :=
+  let ok := match src with
+    | some tb => certToStruct s.h tb t
+    | none => checkSInv s.h t.data
+  { s.newStr r t with certFail := s.certFail || !ok }
+
+/-- the tables met following `proto` from table id `id` -/
+def St.tchain (s : St) : Nat → Option Nat → List Table
+  | 0, _ => []
+  | _, none => []
+  | fuel + 1, some id => match s.theap[id]? with
+    | some t => t :: s.tchain fuel t.proto
+    | none => []
+
+/-- the own entries of a table in bucket order, as `put` arguments -/
+def putsOf (t : Table) : List (KArg × Nat) :=
+  (liveOf t.data).map (fun kv => (match kv.key with | some k => KArg.key k | none => KArg.nil, kv.val))
+
+/-- boot.janet `freeze` on a table whose keys and values are immutable: per level a fresh `@{}` filled by `put` in
+iteration order, `table/to-struct` of it, with the frozen prototype as prototype (deepest level first) -/
+def St.freezeChain (s : St) (chain : List Table) : St × Option Nat :=
+  chain.foldr (fun t (acc : St × Option Nat) =>
+    let temp := fromPuts acc.1.h (putsOf t)
+    let st : Struct := { temp.toStruct acc.1.h acc.1.rank with proto := acc.2 }
+    let ok := certToStruct acc.1.h t st
+    ({ acc.1 with sheap := acc.1.sheap.push st, certFail := acc.1.certFail || !ok }, some acc.1.sheap.size)) (s, none)
+
 def St.theapF (s : St) : Nat → Option Table := fun i => s.theap[i]?
 def St.sheapF (s : St) : Nat → Option Struct := fun i => s.sheap[i]?
 
@@ -81,6 +113,7 @@ def St.state (s : St) : String := Id.run do
   for i in [0:NS] do
     let t := s.str i
     o := o ++ s!" S{i}:{t.data.size},{t.length},{hexNat (kvDigest t.data).toNat},{protoStr s.S t.proto}"
+    if s.certFail then o := o ++ "!STRUCT-CERT"
     if s.full then o := o ++ dumpKV t.data
   for i in [0:NA] do
     let a := s.A.getD i default
@@ -170,6 +203,9 @@ def stepOp (s : St) (toks : List String) : St × String :=
       | "tnew", [c] => match argOf c with
         | .int n => if n < 0 then (s, "err") else (s.newTab r (Table.init n.toNat), "ok")
         | _ => (s, "err")
+      | "tnewweak", [c, _] => match argOf c with     -- table/weak, weak-keys, weak-values: the same janet_table_init_impl
+        | .int n => if n < 0 then (s, "err") else (s.newTab r (Table.init n.toNat), "ok")
+        | _ => (s, "err")
       | "put", [k, v] => match kargOf k, valOf v with
         | some k, some v => (s.setTab r (t.put h k v), "ok")
         | _, _ => (s, "bad-op")
@@ -243,18 +279,23 @@ def stepOp (s : St) (toks : List String) : St × String :=
         | none => (s, "bad-op")
       | "getproto", [] => (s, match t.proto with | none => "nil" | some _ => protoStr s.T t.proto)
       | "tostruct", [d] => match regOf 'S' NS d with
-        | some d => (s.newStr d (t.toStruct h s.rank), "ok")
+        | some d => (s.newStrCert d (t.toStruct h s.rank) (some t), "ok")
         | none => (s, "bad-op")
       | "flatten", [d] => match regOf 'T' NT d with
         | some d =>
-          let rec chain (fuel : Nat) (id : Option Nat) : List Table :=
-            match fuel, id with
-            | 0, _ => []
-            | _, none => []
-            | fuel + 1, some id => match s.theap[id]? with
-              | some t => t :: chain fuel t.proto
-              | none => []
-          (s.newTab d (protoFlatten h (chain (if flattenBounded then maxProtoDepth else 100000) (some (s.T.getD r 0)))), "ok")
+          (s.newTab d (protoFlatten h (s.tchain (if flattenBounded then maxProtoDepth else 100000) (some (s.T.getD r 0)))), "ok")
+        | none => (s, "bad-op")
+      | "freeze", [d] => match regOf 'S' NS d with
+        | some d =>
+          let (s', id) := s.freezeChain (s.tchain 100000 (some (s.T.getD r 0)))
+          match id with
+          | some id => ({ s' with S := s'.S.setIfInBounds d id }, "ok")
+          | none => (s, "bad-op")
+        | none => (s, "bad-op")
+      | "thaw", [d] => match regOf 'T' NT d with     -- (walk-dict thaw (table/proto-flatten ds)) on immutable keys / values
+        | some d =>
+          let flat := protoFlatten h (s.tchain (if flattenBounded then maxProtoDepth else 100000) (some (s.T.getD r 0)))
+          (s.newTab d (fromPuts h (putsOf flat)), "ok")
         | none => (s, "bad-op")
       | _, _ => (s, "bad-op")
     -- ------------------------------------------------ structs
@@ -292,7 +333,7 @@ def stepOp (s : St) (toks : List String) : St × String :=
               | _, _ => none
             | _ => some b
           match go (structBegin (kvs.length / 2)) kvs with
-          | some b => (s.newStr r (structEnd h s.rank b), "ok")
+          | some b => (s.newStrCert r (structEnd h s.rank b) none, "ok")
           | none => (s, "bad-op")
       | "withproto", [p, d] => match regOf 'S' NS d with
         | some d =>
@@ -300,7 +341,7 @@ def stepOp (s : St) (toks : List String) : St × String :=
           match pr with
           | some pr =>
             let b := (liveOf st.data).foldl (fun b kv => match kv.key with | some k => structPut h s.rank true b k kv.val | none => b) (structBegin st.length)
-            (s.newStr d { structEnd h s.rank b with proto := pr }, "ok")
+            (s.newStrCert d { structEnd h s.rank b with proto := pr } none, "ok")
           | none => (s, "err")
         | none => (s, "bad-op")
       | _, _ => (s, "bad-op")
